@@ -313,14 +313,21 @@ func (e *Enc) rangeNext(fr *Frame, x *ssa.Next, guard T, st *State) {
 	ok := e.declare(BoolS, "next_ok")
 	if mt, isMap := rng.X.Type().Underlying().(*types.Map); isMap && !x.IsString {
 		m := e.get(fr, rng.X)
-		k := e.freshVal(tup.At(1).Type(), "next_k")
+		kt := tup.At(1).Type()
+		if b, isB := kt.(*types.Basic); isB && b.Kind() == types.Invalid {
+			kt = mt.Key()
+		}
+		k := e.freshVal(kt, "next_k")
 		if len(k.L) != 1 {
 			panic(unsupported("range over map with composite key"))
 		}
 		v, has := e.mapGet(st, m, mt, Val{Typ: mt.Key(), L: k.L})
 		e.assert(Implies(ok, has))
 		vv := v
-		if len(e.shape(tup.At(2).Type())) != len(v.L) {
+		if b, isB := tup.At(2).Type().(*types.Basic); isB && b.Kind() == types.Invalid {
+			// value not used by the range statement
+			vv = Val{Typ: tup.At(2).Type()}
+		} else if len(e.shape(tup.At(2).Type())) != len(v.L) {
 			vv = e.freshVal(tup.At(2).Type(), "next_v")
 		}
 		fr.vals[x] = Val{Typ: x.Type(), Tup: []Val{{Typ: types.Typ[types.Bool], L: []T{ok}}, k, e.nameVal(vv, "next_v")}}
@@ -434,6 +441,14 @@ func (e *Enc) intrinsic(fr *Frame, fn *ssa.Function, args []Val, guard T, st *St
 		}
 	case "sort.Search":
 		return e.sortSearch(fr, args, guard, st, pos), true
+	}
+	if strings.HasPrefix(name, "slices.SortFunc[") || strings.HasPrefix(name, "slices.SortStableFunc[") {
+		if len(args) == 2 && args[1].Fn != nil && args[1].Fn.Blocks != nil {
+			e.sortFunc(fr, fn, args, guard, st, pos)
+			return Val{}, true
+		}
+	}
+	switch name {
 	case "errors.Is":
 		a, b := args[0].L[0], args[1].L[0]
 		e.declUF("err_wraps", "(Int Int) Bool")
